@@ -1538,7 +1538,17 @@ def selftest(ctx: Ctx) -> dict:
     case = {"kind": "sim", "rtype": "probability", "shape": [1, 3],
             "array": [[["1/2", "0"], ["1/4", "0"], ["1/4", "0"]]], "inputs": [[1, 0]],
             "outputs": [[2, 0], [1, 1], [3, 0]], "q": [["map", [["threshold", False]]], ["get", {"tup": [{"st": [1, 0]}, {"st": [1, 1]}]}]]}
-    base = run_case(ctx, case)  # problems of the implementation on this case, if any, are reported by run()
+    base = run_case(ctx, case)
+    if base:
+        # the implementation already disagrees on the self-test case: the injected difference cannot be told apart
+        # from it, so the self-test says nothing; the disagreement itself is reported like that of any other case
+        ctx.count("selftest:skipped-implementation-already-differs")
+        oracle = [p for p in base if p.startswith("oracle")]
+        if oracle:
+            ctx.violation(oracle[0], {"case": case, "problems": base}, sig={"kind": "selftest-case"})
+        else:
+            ctx.disagreement(base[0], {"case": case, "problems": base})
+        return case
     # the comparison must see an injected difference (a model that forgets to add coinciding weights)
     real = ctx._model
 
